@@ -22,10 +22,10 @@ RULE = ("case = (layer kind, configuration: sizes/keypoints/buckets, units, mono
         "ranges, initializer id, random seed); the real layer is built and its fresh weights are judged; non-trivial = some monotonicity / "
         "unimodality / bound / ordering is configured; distinct by digest of the configuration (+ seed for random initializers)")
 MIN_EVENTS = {
-    "quick": {"Lattice.init/shape": 80, "Lattice.init/assert_constraints": 80, "Lattice.init/constraint-leaves-unchanged": 40,
+    "quick": {"PWLCalibration.init/function-shape": 60, "PWLCalibration.init/keypoints-are-the-configured-ones": 60, "Lattice.init/shape": 80, "Lattice.init/assert_constraints": 80, "Lattice.init/constraint-leaves-unchanged": 40,
               "PWLCalibration.init/shape": 80, "PWLCalibration.init/assert_constraints": 80,
               "KFL.init/monotone-bounded-on-grid": 50, "CategoricalCalibration.init/feasible": 40},
-    "thorough": {"Lattice.init/shape": 3500, "Lattice.init/assert_constraints": 3500, "Lattice.init/constraint-leaves-unchanged": 1800,
+    "thorough": {"PWLCalibration.init/function-shape": 2100, "PWLCalibration.init/keypoints-are-the-configured-ones": 2100, "Lattice.init/shape": 3500, "Lattice.init/assert_constraints": 3500, "Lattice.init/constraint-leaves-unchanged": 1800,
                  "PWLCalibration.init/shape": 3500, "PWLCalibration.init/assert_constraints": 3500,
                  "KFL.init/monotone-bounded-on-grid": 2200, "CategoricalCalibration.init/feasible": 1800},
 }
